@@ -6,6 +6,7 @@ replace github.com/hknutzen/Netspoc-Approve/go => /repo/go
 
 require (
 	github.com/hknutzen/Netspoc-Approve/go v0.0.0-00010101000000-000000000000
+	github.com/hknutzen/testtxt v0.0.0-20240408182449-0168fe18ebfb
 	pgregory.net/rapid v1.3.0
 )
 
@@ -16,4 +17,5 @@ require (
 	golang.org/x/crypto v0.35.0 // indirect
 	golang.org/x/sys v0.30.0 // indirect
 	golang.org/x/term v0.29.0 // indirect
+	gopkg.in/yaml.v3 v3.0.1 // indirect
 )
